@@ -562,7 +562,7 @@ func (d *diff) defaultChanged(from, to *schema.Column) (bool, error) {
 		if err1 == nil && err2 == nil {
 			return a != b, nil
 		}
-		return false, nil
+		return true, nil
 	case *schema.IntegerType:
 		return !d.equalIntValues(d1, d2), nil
 	case *schema.FloatType, *schema.DecimalType:
